@@ -22,6 +22,7 @@ package builder
 
 import (
 	"fmt"
+	"math"
 	"math/big"
 	"net/url"
 	"reflect"
@@ -419,8 +420,65 @@ func setDecimalFloatFromFloat(value float64, dst reflect.Value) {
 	dst.Set(reflect.ValueOf(v))
 }
 
+// Beyond this binary exponent (positive or negative), a big.Float is scaled
+// into a small range before being converted to decimal: big.Float.Text takes
+// time and memory that grow faster than linearly with the exponent, so that a
+// 17 byte document containing 0x1p-30000000 would otherwise take minutes.
+const maxBase2ExponentForDirectDecimalConversion = 10000
+
+func decimalFloatFromBigFloat(value *big.Float) (compact_float.DFloat, error) {
+	exp2 := value.MantExp(nil)
+	if value.IsInf() || (exp2 <= maxBase2ExponentForDirectDecimalConversion && exp2 >= -maxBase2ExponentForDirectDecimalConversion) {
+		return compact_float.DFloatFromBigFloat(value)
+	}
+
+	// value = scaled * 10^exp10, with scaled somewhere between 0.01 and 100.
+	// The extra 64 bits of precision swallow the rounding errors of the (at
+	// most 64) multiplications needed to compute the power of 10.
+	exp10 := int64(float64(exp2) * math.Log10(2))
+	prec := value.Prec() + 64
+	power := new(big.Float).SetPrec(prec).SetInt64(1)
+	base := new(big.Float).SetPrec(prec).SetInt64(10)
+	n := exp10
+	if n < 0 {
+		n = -n
+	}
+	for {
+		if n&1 != 0 {
+			power.Mul(power, base)
+		}
+		n >>= 1
+		if n == 0 {
+			break
+		}
+		base.Mul(base, base)
+	}
+	scaled := new(big.Float).SetPrec(prec)
+	if exp10 >= 0 {
+		scaled.Quo(value, power)
+	} else {
+		scaled.Mul(value, power)
+	}
+
+	// Same number of digits as compact_float.DFloatFromBigFloat would ask for.
+	text := scaled.Text('g', common.BitsToDecimalDigits(int(value.Prec())))
+	v, err := compact_float.DFloatFromString(text)
+	if err != nil && err != roundingError {
+		return v, err
+	}
+	if v.IsZero() {
+		return v, err
+	}
+	exponent := int64(v.Exponent) + exp10
+	if exponent > math.MaxInt32 || exponent < math.MinInt32+1 {
+		return v, fmt.Errorf("%v has an exponent that is too large for a decimal float", conversions.DescribeBigFloat(value))
+	}
+	v.Exponent = int32(exponent)
+	return v, err
+}
+
 func setDecimalFloatFromBigFloat(value *big.Float, dst reflect.Value) {
-	v, err := compact_float.DFloatFromBigFloat(value)
+	v, err := decimalFloatFromBigFloat(value)
 	if err != nil && err != roundingError {
 		panic(err)
 	}
